@@ -134,7 +134,21 @@ func explore(p *Program, cfg *HarnessCfg, workers int, deadline time.Time) (*Run
 				ns.queries, ns.satN, ns.unsatN, ns.unkN, ns.errN, ns.time = solver.queries, solver.satN, solver.unsatN, solver.unkN, solver.errN, solver.time
 				solver = ns
 			}
+			errBefore := solver.errN
 			res := runPath(p, cfg, fn, solver, it.prefix)
+			// a solver error line or a solver that died during this path (seen under
+			// memory / CPU pressure) is not a verdict: re-execute the path, which is
+			// deterministic, on a fresh solver process before counting it
+			for attempt := 0; attempt < 2 && (solver.errN > errBefore || solver.dead); attempt++ {
+				solver.Close()
+				ns, err := newSolver("z3", cfg.SolverTimeoutMS)
+				if err != nil {
+					break
+				}
+				ns.queries, ns.satN, ns.unsatN, ns.unkN, ns.errN, ns.time = solver.queries, solver.satN, solver.unsatN, solver.unkN, errBefore, solver.time
+				solver = ns
+				res = runPath(p, cfg, fn, solver, it.prefix)
+			}
 
 			mu.Lock()
 			active--
